@@ -8,7 +8,7 @@
 use std::collections::BTreeMap;
 use std::fmt::Write as _;
 
-const BINDINGS: &str = "/repo/rust/ommx/src/ommx.v1.rs";
+
 
 #[derive(Debug, Clone)]
 struct Field {
@@ -196,8 +196,13 @@ fn rust_path(it: &Item) -> String {
 fn main() {
     println!("cargo:rustc-link-arg-bins=-rdynamic");
     println!("cargo:rerun-if-changed=build.rs");
-    println!("cargo:rerun-if-changed={}", BINDINGS);
-    let src = std::fs::read_to_string(BINDINGS).expect("read the checked-in prost bindings");
+    // the repository under test: /repo, unless the wrapper was told otherwise (background runs on a snapshot)
+    let repo = std::env::var("VERIF_REPO").ok().filter(|s| !s.is_empty()).unwrap_or_else(|| "/repo".to_string());
+    println!("cargo:rerun-if-env-changed=VERIF_REPO");
+    println!("cargo:rustc-env=VERIF_REPO_ROOT={}", repo);
+    let bindings = format!("{}/rust/ommx/src/ommx.v1.rs", repo);
+    println!("cargo:rerun-if-changed={}", bindings);
+    let src = std::fs::read_to_string(&bindings).expect("read the checked-in prost bindings");
     let items = parse(&src);
     let mut out = String::new();
     out.push_str("// @generated by /verif/sim/build.rs from rust/ommx/src/ommx.v1.rs\n");
